@@ -5,7 +5,7 @@
 (* [neg : BOOLEAN, m : Seq(0..9999)]  - magnitude in base 10^4, little     *)
 (* endian, no leading zero limb (zero is [neg |-> FALSE, m |-> <<>>]).     *)
 (* Only what the documentation fixes for large values is provided:         *)
-(* comparison, equality, + and - (while the result fits), negation and     *)
+(* comparison, equality, +, - and * (while the result fits), negation and  *)
 (* decimal printing.                                                       *)
 (***************************************************************************)
 EXTENDS Integers, Sequences, TLC
@@ -38,6 +38,16 @@ WAdd(x, y) == IF x.neg = y.neg THEN Norm(x.neg, AddAbs(x.m, y.m))
               ELSE LET c == CmpAbs(x.m, y.m) IN
                    IF c = 0 THEN WZero ELSE IF c > 0 THEN Norm(x.neg, SubAbs(x.m, y.m)) ELSE Norm(y.neg, SubAbs(y.m, x.m))
 WSub(x, y) == WAdd(x, WNeg(y))
+\* magnitude times one limb-sized digit d (0..9999), then schoolbook multiplication
+RECURSIVE MulDigitFrom(_,_,_,_)
+MulDigitFrom(a, d, i, carry) ==
+   IF i > Len(a) THEN (IF carry = 0 THEN <<>> ELSE <<carry>>)
+   ELSE LET p == a[i] * d + carry IN <<p % Base>> \o MulDigitFrom(a, d, i + 1, p \div Base)
+RECURSIVE MulAbsFrom(_,_,_)
+MulAbsFrom(a, b, j) ==        \* sum over j of (a * b[j]) shifted by j-1 limbs
+   IF j > Len(b) THEN <<>>
+   ELSE AddAbs([k \in 1..(j - 1) |-> 0] \o MulDigitFrom(a, b[j], 1, 0), MulAbsFrom(a, b, j + 1))
+WMul(x, y) == IF x.m = <<>> \/ y.m = <<>> THEN WZero ELSE Norm(x.neg # y.neg, MulAbsFrom(x.m, y.m, 1))
 WLess(x, y) == IF x.neg # y.neg THEN x.neg
                ELSE IF x.neg THEN CmpAbs(x.m, y.m) > 0 ELSE CmpAbs(x.m, y.m) < 0
 WEq(x, y) == x = y
@@ -45,6 +55,11 @@ WEq(x, y) == x = y
 MaxLong == <<5807, 5477, 3685, 3720, 922>>
 MinLongMag == <<5808, 5477, 3685, 3720, 922>>
 WFits(x) == IF x.neg THEN CmpAbs(x.m, MinLongMag) <= 0 ELSE CmpAbs(x.m, MaxLong) <= 0
+\* 2^31 - 1 = 21 4748 3647
+MaxInt == <<3647, 4748, 21>>
+MinIntMag == <<3648, 4748, 21>>
+WFitsInt(x) == IF x.neg THEN CmpAbs(x.m, MinIntMag) < 0 ELSE CmpAbs(x.m, MaxInt) <= 0      \* -2^31 itself is left out (TLC cannot negate it)
+WToInt32(x) == LET v == Limb(x.m, 1) + Base * Limb(x.m, 2) + Base * Base * Limb(x.m, 3) IN IF x.neg THEN -v ELSE v
 \* does it fit TLC's own integers comfortably? (then it is carried as a plain int again)
 WSmall(x) == Len(x.m) <= 2
 WToInt(x) == LET v == Limb(x.m, 1) + Base * Limb(x.m, 2) IN IF x.neg THEN -v ELSE v
